@@ -51,6 +51,7 @@ const (
 	c45SigMissing   = "interrupted-save-leaves-no-config-file"
 	c45SigComplete  = "completed-save-is-not-the-new-config"
 	c45SigPanic     = "save-path-crashed"
+	c45SigAfterCrash = "save-after-interrupted-save-is-not-the-new-config"
 	c45ChildEnv     = "VERIF_C45_CHILD"
 )
 
@@ -336,6 +337,23 @@ func TestC45Child(t *testing.T) {
 		}
 		save()
 		syscall.Exit(0)
+	case "follow":
+		// an uninterrupted save in the directory exactly as an earlier, interrupted save left it
+		errText, panicText := runSave(&job, -1)
+		if strings.HasPrefix(panicText, "harness:") {
+			fmt.Println("C45CHILD-MACHINERY", panicText)
+			os.Exit(3)
+		}
+		res := observe(&job, old, -1)
+		res.Err, res.Panic = errText, panicText
+		if b, err := os.ReadFile(job.Path); err == nil {
+			res.Image = base64.StdEncoding.EncodeToString(b)
+		}
+		b, _ := json.Marshal(res)
+		fmt.Fprintf(out, "C45CHILD-RESULT %s\n", b)
+		fmt.Fprintln(out, "C45CHILD-DONE")
+		out.Flush()
+		os.Exit(0)
 	case "efbig":
 		signal.Ignore(syscall.SIGXFSZ)
 		cuts := job.Cuts
@@ -498,7 +516,7 @@ func loadImage(dir string, img []byte) (c45State, error) {
 
 func TestC45(t *testing.T) {
 	rec := ev.New(t, "C45")
-	rec.Rule("Case = (previous config, new config, save path, fault). Configs: PEM certificate (1-2 blocks), PEM key (one real ed25519 key per run, else random PEM of 3 sizes), 0..5 tunnels over http/https/tcp/unix targets with YAML-hostile option strings; old file mode 0600/0644, optionally with a hand-written comment; save paths Config.writeFile (certificate+key+tunnels change), Client.RebuildTunnels (tunnels change), Client.UpdateApex (only apex changes). The save runs in a child process (re-exec of the test binary). Fault family 1, short writes (RLIMIT_FSIZE=n): mode efbig enumerates EVERY n in 0..len(new)+2 (thorough: all cases; quick: 2 generated cases, the others take 0, 1, every YAML line boundary -1/0/+1, the end and 60 sampled n; write fails with EFBIG, process stops), mode kill takes n=0, len-1, len and sampled n (SIGXFSZ kills the process inside write). Fault family 2, crash at system-call boundaries: an uninterrupted save of the prepared child is traced once (strace attached to the child's locked thread, classes %file,%desc) to discover the file operations the save issues (openat, fchmod, write..., fsync, close, rename..., unlink..., whatever appears; only read-only calls such as stat/read/fcntl/epoll are skipped); then for every operation i the child is re-run and killed with SIGKILL on ENTERING that call (strace -e inject=<syscall>:signal=SIGKILL:when=<k>), i.e. after operations 1..i-1 completed and before operation i (thorough: every operation of every case; quick: witness + first generated case every operation, two more cases every non-write operation plus first/last write). Oracle: after the stop the config path exists and client.NewConfig loads the previous or the new config (certificate, key, tunnels); when nothing was interrupted it is the new one. Non-trivial: the fault interrupts the save (n < len(new bytes), or the process was killed at the boundary). Distinct = distinct (case, fault).")
+	rec.Rule("Case = (previous config, new config, save path, fault). Configs: PEM certificate (1-2 blocks), PEM key (one real ed25519 key per run, else random PEM of 3 sizes), 0..5 tunnels over http/https/tcp/unix targets with YAML-hostile option strings; old file mode 0600/0644, optionally with a hand-written comment; save paths Config.writeFile (certificate+key+tunnels change), Client.RebuildTunnels (tunnels change), Client.UpdateApex (only apex changes). The save runs in a child process (re-exec of the test binary). Fault family 1, short writes (RLIMIT_FSIZE=n): mode efbig enumerates EVERY n in 0..len(new)+2 (thorough: all cases; quick: 2 generated cases, the others take 0, 1, every YAML line boundary -1/0/+1, the end and 60 sampled n; write fails with EFBIG, process stops), mode kill takes n=0, len-1, len and sampled n (SIGXFSZ kills the process inside write). Fault family 2, crash at system-call boundaries: an uninterrupted save of the prepared child is traced once (strace attached to the child's locked thread, classes %file,%desc) to discover the file operations the save issues (openat, fchmod, write..., fsync, close, rename..., unlink..., whatever appears; only read-only calls such as stat/read/fcntl/epoll are skipped); then for every operation i the child is re-run and killed with SIGKILL on ENTERING that call (strace -e inject=<syscall>:signal=SIGKILL:when=<k>), i.e. after operations 1..i-1 completed and before operation i (thorough: every operation of every case; quick: witness + first generated case every operation, two more cases every non-write operation plus first/last write). Histories of two saves: after a boundary crash that left extra files in the directory, the client is started again IN THAT DIRECTORY and performs an uninterrupted save of a shorter configuration (previous identity, at most one tunnel); the file must then load as exactly that configuration (thorough: after every such crash point; quick: the first six and the last per case). Oracle: after the stop the config path exists and client.NewConfig loads the previous or the new config (certificate, key, tunnels); when nothing was interrupted it is the new one. Non-trivial: the fault interrupts the save (n < len(new bytes), or the process was killed at the boundary). Distinct = distinct (case, fault).")
 	rec.Assume("a process stop leaves exactly what the completed system calls put on disk (RLIMIT_FSIZE: the crossing write is shortened to the limit, the next one fails; strace injection: the call being entered is not executed); page-cache loss on power failure is not modelled", "stray temporary/backup files next to the config are allowed", "the previous file exists and loads (a first save has nothing to lose)", "the save's system calls run on the thread the child locked itself to (Go issues file calls on the calling goroutine's thread); an injection that does not fire is counted and judged as an uninterrupted save")
 	rec.Exhaustive(false)
 
@@ -866,6 +884,7 @@ func TestC45(t *testing.T) {
 			return
 		}
 		rec.Add("syscall_crash_points", int64(len(points)))
+		followed := 0
 		for _, pt := range points {
 			pt := pt
 			if err := restoreOld(job, oldBytes); err != nil {
@@ -894,6 +913,59 @@ func TestC45(t *testing.T) {
 				cut = L
 			}
 			judgeAt("syscall", cut, res, img, killed, &pt)
+
+			// The client restarts and saves again, in the directory as the crash left it
+			// (whatever temporary files the interrupted save created are still there): that
+			// second, uninterrupted save must produce exactly its own new configuration. The
+			// follow-up configuration is SHORTER than the interrupted one (previous identity,
+			// at most one tunnel), so left-over bytes cannot hide behind it.
+			if !killed || res.Stray == 0 || res.Class == "missing" {
+				continue
+			}
+			followed++
+			if !ev.Thorough() && followed > 6 && pt.Ordinal != pt.Total {
+				continue
+			}
+			if res.Class != "old" {
+				if _, lerr := loadImage(dir, img); lerr != nil {
+					continue // already reported above; nothing to restart from
+				}
+			}
+			follow := c45State{Apex: c.Old.Apex, Cert: c.Old.Cert, Key: c.Old.Key}
+			if len(c.Old.Tunnels) > 0 {
+				follow.Tunnels = c.Old.Tunnels[:1]
+			}
+			fjob := *job
+			fjob.Kind, fjob.SavePath, fjob.New, fjob.Cuts, fjob.Plan = "follow", "writeFile", follow, nil, ""
+			fout, fws, ferr := runChild(t, &fjob, dir)
+			if ferr != nil || !fws.Exited() || fws.ExitStatus() != 0 || !strings.Contains(fout, "C45CHILD-DONE") {
+				if strings.Contains(fout, "panic: ") || strings.Contains(fout, "fatal error: ") {
+					report(c45SigPanic, c.doc(), "child crashed while saving after an interrupted save: %s", tail(fout, 1500))
+					continue
+				}
+				broken("follow-up child failed: err=%v status=%v out=%s", ferr, fws, tail(fout, 3000))
+				return
+			}
+			fres := parseResults(t, fout)
+			if len(fres) != 1 {
+				broken("follow-up child produced %d results: %s", len(fres), tail(fout, 2000))
+				return
+			}
+			fimg, _ := base64.StdEncoding.DecodeString(fres[0].Image)
+			fgot, flerr := loadImage(dir, fimg)
+			okFollow := fres[0].Err == "" && fres[0].Panic == "" && flerr == nil && sameIdentity(fgot, follow)
+			rec.Case(true, fmt.Sprintf("%s|follow|%s#%d|%x", c.Name, pt.Name, pt.K, sha256.Sum256([]byte(fmt.Sprint(c.doc())))), func() any {
+				return map[string]any{"case": c.Name, "save": c.SavePath, "mode": "save-after-interrupted-save", "interrupted_at": fmt.Sprintf("%s#%d", pt.Name, pt.K), "left_behind": pt.DirAfter, "ok": okFollow}
+			}, "mode:save-after-interrupted-save", "save:"+c.SavePath)
+			if !okFollow {
+				d := c.doc()
+				d["crashPoint"], d["directoryAfterCrash"], d["followUpConfig"], d["image"], d["saveErr"] = pt, pt.DirAfter, follow, string(fimg), fres[0].Err
+				what := "does not load: " + fmt.Sprint(flerr)
+				if flerr == nil {
+					what = fmt.Sprintf("loads, but certificate-equal=%v key-equal=%v tunnels=%s (saved: %s)", fgot.Cert == follow.Cert, fgot.Key == follow.Key, tunnelsKey(fgot.Tunnels), tunnelsKey(follow.Tunnels))
+				}
+				report(c45SigAfterCrash, d, "a save (%s) was killed on entering %s call #%d and left %v behind; the next, uninterrupted save of a %d-tunnel configuration (err=%q) produced a file of %d bytes that %s", c.SavePath, pt.Name, pt.K, pt.DirAfter, len(follow.Tunnels), fres[0].Err, fres[0].Length, what)
+			}
 		}
 	}
 
